@@ -568,6 +568,8 @@ def reject_reasons(nd, o, before):
                 for k, it in enumerate(d["items"][:len(dims)]):
                     if it["t"] in ("arr", "num") and _feat(it) != dims[k]:
                         rs.append(("wrong-feature-count", "%s:%dd-array" % (tag, _ndim(it))))
+                if len(d["items"]) > len(dims):          # more inputs than the node has: total feature size differs
+                    rs.append(("wrong-feature-count", "%s:extra-input" % tag))
         elif JUDGE_RAGGED_UNINITIALISED and d["t"] == "list" and op in ("fit", "partial_fit"):
             fs = {_feat(l) for l, _ in leaves if l["t"] in ("arr", "num")}
             if len(fs) > 1:
@@ -623,6 +625,7 @@ def _judge(c):
     except Exception as e:  # noqa: BLE001
         return [_viol("harness:exception", "scenario could not be run: %r" % e, c, len(c["ops"]))]
     nd = c["node"]
+    taint = None      # key of an earlier accepted irregular input: its delayed symptoms (e.g. a 3-D block leaving a Delay line) belong to it
     for k, (o, r) in enumerate(zip(c["ops"], obs[1:])):
         b, a = obs[k]["after"], r["after"]
         desc = "%s.%s(%s%s)" % (nd["cls"], o["op"], _brief(o["x"]), "" if o.get("y") is None else ", " + _brief(o["y"]))
@@ -655,26 +658,29 @@ def _judge(c):
                 out.append(_viol(key, "%s raises %s only after the node was modified (%s %s); node before %s, after %s"
                                  % (desc, r["msg"], reason, detail, _bs(b), _bs(a)), c, k, b, a))
             continue
+        if taint is None and r["phase"] >= 2 and o["op"] in ("call", "run", "train") and wellformed_rows(nd, o) is None \
+                and o["x"]["t"] == "arr" and len(o["x"]["shape"]) >= 3:
+            taint = irregular_key(nd, o)
         # (iii) accepted well-formed input of T steps -> T rows of width output_dim (a 1-D output that goes with a 1-D
         #       state is the same defect and is reported once, under the state key below)
         T = wellformed_rows(nd, o)
         state_bad = r["exc"] is None and a["init"] and a["state"] != [1, a["outd"]]
         if r["exc"] is None and T is not None and a["init"] and not state_bad:
             if r["out"] != [T, a["outd"]]:
-                out.append(_viol("rows:%s:%s" % (o["op"], short(nd["cls"])), "%s returns shape %s instead of (%d, %s)"
+                out.append(_viol(taint or "rows:%s:%s" % (o["op"], short(nd["cls"])), "%s returns shape %s instead of (%d, %s)"
                                  % (desc, r["out"], T, a["outd"]), c, k, [T, a["outd"]], r["out"]))
         # (iv) the state is a (1, output_dim) array after any accepted operation
         if r["exc"] is None and a["init"]:
             if a["state"] != [1, a["outd"]]:
                 if T is not None or o["op"] in ("fit", "partial_fit"):
-                    out.append(_viol("state-not-2d:%s" % short(nd["cls"]), "after %s the state has shape %s, not (1, %s)"
+                    out.append(_viol(taint or "state-not-2d:%s" % short(nd["cls"]), "after %s the state has shape %s, not (1, %s)"
                                      % (desc, a["state"], a["outd"]), c, k, [1, a["outd"]], a["state"]))
                 elif JUDGE_IRREGULAR_3D:
                     out.append(_viol(irregular_key(nd, o), "%s (not a step / sequence layout) is accepted and leaves a state of shape %s, not (1, %s)"
                                      % (desc, a["state"], a["outd"]), c, k, [1, a["outd"]], a["state"]))
         elif JUDGE_IRREGULAR_3D and r["exc"] is not None and r["phase"] == 2 and a["init"] and a["state"] != [1, a["outd"]] \
                 and (not b["init"] or b["state"] == [1, b["outd"]]):
-            out.append(_viol(irregular_key(nd, o), "%s raises %s but leaves a state of shape %s, not (1, %s)"
+            out.append(_viol(taint or irregular_key(nd, o), "%s raises %s but leaves a state of shape %s, not (1, %s)"
                              % (desc, r["msg"], a["state"], a["outd"]), c, k, [1, a["outd"]], a["state"]))
     return out
 
@@ -725,6 +731,10 @@ def directed_cases():
     # Concat given a one-element list (3-D output before e9d4225)
     cs.append({"node": {"cls": "Concat"}, "ops": [{"op": "call", "x": {"t": "list", "items": [arr([1, 2], "f", 10)]}}]})
     cs.append({"node": {"cls": "Concat"}, "ops": [{"op": "run", "x": {"t": "list", "items": [arr([4, 3], "f", 11)]}}]})
+    # a multi-input node given more inputs than it has (accepted before 7992b77)
+    two = {"t": "list", "items": [arr([1, 2], "f", 18), arr([1, 2], "f", 19)]}
+    three = {"t": "list", "items": [arr([1, 2], "f", 18), arr([1, 2], "f", 19), arr([1, 3], "f", 20)]}
+    cs.append({"node": {"cls": "Concat"}, "ops": [{"op": "call", "x": two}, {"op": "call", "x": three}, {"op": "call", "x": two}]})
     # the two open findings: 3-D array to call / run of an initialised node; ragged feature counts on an uninitialised node
     cs.append({"node": {"cls": "Identity"}, "ops": [{"op": "run", "x": arr([2, 3], "f", 12)}, {"op": "call", "x": arr([2, 1, 3], "f", 13)}]})
     cs.append({"node": {"cls": "Identity"}, "ops": [{"op": "run", "x": arr([2, 3], "f", 12)}, {"op": "run", "x": arr([4, 3, 3], "f", 13)}]})
